@@ -5,6 +5,7 @@ mod c12;
 mod c14;
 mod casex;
 mod c15;
+mod c16;
 mod c18;
 mod mapwatch;
 mod ops;
